@@ -35,6 +35,7 @@ mod c12;
 mod c13;
 mod c14;
 mod c15;
+mod c16;
 
 fn main() {
     let args: Vec<String> = std::env::args().skip(1).collect();
@@ -90,6 +91,7 @@ fn prop_fn(name: &str) -> Option<fn(&mut rep::Ctx)> {
         "c13" => c13::run,
         "c14" => c14::run,
         "c15" => c15::run,
+        "c16" => c16::run,
         _ => return None,
     })
 }
